@@ -11,6 +11,10 @@ use std::collections::BTreeMap;
 
 pub const W2N: &str = "id: w2n\nsteps:\n  - id: s1\n    branches:\n      - id: b1\n        if: \"true\"\n        steps:\n          - id: s11\n            acts:\n              - uses: acts.core.irq\n                key: a1\n      - id: b2\n        if: \"true\"\n        steps:\n          - id: s21\n            branches:\n              - id: b21\n                if: \"true\"\n                steps:\n                  - id: s211\n                    acts:\n                      - uses: acts.core.irq\n                        key: a2\n  - id: s2\n";
 pub const W5: &str = "id: w5\nsteps:\n  - id: s1\n    acts:\n      - uses: acts.core.irq\n        key: a1\n        outputs:\n          x:\n          y:\n  - id: s2\n    acts:\n      - uses: acts.core.irq\n        key: a2\n";
+/// a parallel block with a catch-all without steps on the block act itself: two children can fail one after the other
+pub const W9A: &str = "id: w9a\nsteps:\n  - id: s1\n    acts:\n      - uses: acts.core.block\n        key: blk\n        catches:\n          - steps: []\n        params:\n          mode: parallel\n          acts:\n            - uses: acts.core.irq\n              key: x\n            - uses: acts.core.irq\n              key: y\n  - id: s2\n    acts:\n      - uses: acts.core.irq\n        key: z\n";
+/// the same with the empty catch on the step around the block
+pub const W9B: &str = "id: w9b\nsteps:\n  - id: s1\n    catches:\n      - steps: []\n    acts:\n      - uses: acts.core.block\n        key: blk\n        params:\n          mode: parallel\n          acts:\n            - uses: acts.core.irq\n              key: x\n            - uses: acts.core.irq\n              key: y\n  - id: s2\n    acts:\n      - uses: acts.core.irq\n        key: z\n";
 /// branches without steps (a taken one, a needs branch and an else branch) before a step with an open act
 pub const W8: &str = "id: w8\nsteps:\n  - id: s1\n    branches:\n      - id: b0\n        else: true\n      - id: b1\n        if: \"true\"\n        steps:\n          - id: s11\n            acts:\n              - uses: acts.core.irq\n                key: a1\n      - id: b2\n        needs: [b1]\n      - id: b3\n        if: \"true\"\n  - id: s2\n    acts:\n      - uses: acts.core.irq\n        key: a2\n";
 /// rework loop: the guarded branch increments `a` and jumps back to the first step
@@ -94,7 +98,7 @@ fn scenarios_of(prop: &str, tier: Tier) -> Vec<HScn> {
     let q = tier == Tier::Quick;
     match prop {
         "C02" | "C08" => {
-            for (y, l_quick, l_thorough) in [(W1, 2, 3), (W2, 2, 3), (W3, 2, 3), (W4, 2, 3), (W3B, 2, 3), (W6, 2, 3)] {
+            for (y, l_quick, l_thorough) in [(W1, 2, 3), (W2, 2, 3), (W3, 2, 3), (W4, 2, 3), (W3B, 2, 3), (W6, 2, 3), (W9A, 2, 3), (W9B, 2, 3)] {
                 let l = if q { l_quick } else { l_thorough };
                 let mut c = full_cfg(l);
                 if y == W3B {
@@ -117,9 +121,11 @@ fn scenarios_of(prop: &str, tier: Tier) -> Vec<HScn> {
         }
         "C03" => {
             // (workflow, keep_processes, deviation bound in the quick tier)
-            let set: [(&str, bool, usize); 13] = [
+            let set: [(&str, bool, usize); 15] = [
                 (W8, false, 1),
                 (W8, true, 0),
+                (W9B, false, 0),
+                (W9B, true, 0),
                 (W2, false, 1),
                 (W4, false, 1),
                 (W2N, false, 0),
